@@ -10,6 +10,7 @@ CONSTANTS
   Mode = "hist"
   MaxLen = 3
   Chains = 0
+  Replays <- AllReplays
 INIT Init
 NEXT Next
-INVARIANTS TypeOK OnlyAuthentic NoVerifierRejects RealNotBypassed RejectKeepsState Complete Monotone CacheIsLastAccepted EmitHist
+INVARIANTS TypeOK OnlyAuthentic NoVerifierRejects RealNotBypassed RejectKeepsState Complete Monotone CacheIsLastAccepted ReplayRejected ReplayAsFresh ReplayWellFormed KnownIsPresented ReplaySourced EmitHist
